@@ -53,12 +53,14 @@ def cpython(expr, env):
 
 # empty containers have the operand type without an element type to go by
 EMPTY = [('empty_list', '[]'), ('empty_tuple', '()'), ('empty_str', "''")]
+# the sign of an operand decides the class of a power's result
+NEG = [('negative_int', '-2'), ('negative_float', '-2.5')]
 
 
 def ground(arg):
     out = []
     cells = list(itertools.product(CORE, CORE)) + list(itertools.product(EMPTY, CORE + EMPTY)) + \
-        list(itertools.product(CORE, EMPTY))
+        list(itertools.product(CORE, EMPTY)) + list(itertools.product(NEG, CORE[:2] + NEG)) + list(itertools.product(CORE[:2], NEG))
     for (na, la), (nb, lb) in cells:
         env = {'a': eval(la), 'b': eval(lb)}
         for op in BINOPS + COMPARES:
